@@ -371,6 +371,8 @@ def run(prop, tier, vseed):
         for a, f, c in pool.imap_unordered(dispatch, tasks, chunksize=1):
             nev += a
             failures.extend(f)
+            if len(failures) > 20000:
+                failures = report.compact(failures)
             ncls += c
     cov = {
         "states": nev,
